@@ -1158,7 +1158,42 @@ def inflightadd(rng):
     return {"cfg": _cfg(rng, n), "ops": ops}
 
 
-FAMILIES = {"inflightadd": inflightadd, "openshut": openshut, "windowlimit": windowlimit, "tampercs": tampercs, "fwdlate": fwdlate, "asyncsign": asyncsign, "skim": skim, "batchopen": batchopen, "discomplete": discomplete, "monbcast": monbcast, "staletwo": staletwo, "bigclaim": bigclaim, "dustclose": dustclose, "slots": slots, "asynccross": asynccross, "blockedjump": blockedjump, "feecross": feecross, "opendisc": opendisc, "chainsettle": chainsettle, "crosslimit": crosslimit, "evhold": evhold, "failwin": failwin, "fanin": fanin, "inflight": inflight, "holdcell": holdcell, "stalehold": stalehold}
+def badonion(rng):
+    """An HTLC arrives with an onion its receiver cannot process (wrong HMAC, corrupted payload, unknown version, bogus
+    ephemeral key) at the first or at a later hop: the receiver answers update_fail_malformed_htlc (relayed upstream as
+    an ordinary failure); nothing else changes: commitments stay agreed, the channel stays open, the payer gets its
+    failure (C01 / C02: a malformed failure is a removal like any other)."""
+    n = rng.choice([2, 3, 3])
+    pairs = [(i, i + 1) for i in range(n - 1)]
+    ops, npay = [], 0
+    if rng.random() < 0.4:
+        a = rng.randrange(n)
+        b = rng.choice([j for j in range(n) if j != a])
+        ops += [{"op": "send", "from": a, "to": b, "amt": rng.choice(["big", "justabove", "dust"])}]
+        npay += 1
+        if rng.random() < 0.5:
+            ops.append({"op": "deliver_all"})
+    src, dst = rng.choice([(0, n - 1), (n - 1, 0)])
+    ops.append({"op": "send", "from": src, "to": dst, "amt": rng.choice(["big", "justabove", "dust", "window"])})
+    npay += 1
+    step = 1 if dst > src else -1
+    hop = rng.randrange(abs(dst - src))            # the hop in front of which the onion goes bad
+    cur = src
+    for _ in range(hop):
+        # let the HTLC travel one hop: add + commitment dance + forward
+        ops += [{"op": "deliver", "from": cur, "to": cur + step}] * 2 + [{"op": "deliver", "from": cur + step, "to": cur}] * 2
+        ops += [{"op": "deliver", "from": cur, "to": cur + step}, {"op": "forward", "node": cur + step}]
+        cur += step
+    ops.append({"op": "corrupt_onion", "from": cur, "to": cur + step, "mode": rng.randrange(4)})
+    dirs = [(a, b) for (a, b) in pairs] + [(b, a) for (a, b) in pairs]
+    ops += _deliveries(rng, dirs, rng.randrange(0, 6))
+    if rng.random() < 0.3:
+        ops += [{"op": "disconnect", "a": min(cur, cur + step), "b": max(cur, cur + step)}, {"op": "reconnect", "a": min(cur, cur + step), "b": max(cur, cur + step)}]
+    ops += _wind_down(npay, rng, pairs)
+    return {"cfg": _cfg(rng, n), "ops": ops}
+
+
+FAMILIES = {"badonion": badonion, "inflightadd": inflightadd, "openshut": openshut, "windowlimit": windowlimit, "tampercs": tampercs, "fwdlate": fwdlate, "asyncsign": asyncsign, "skim": skim, "batchopen": batchopen, "discomplete": discomplete, "monbcast": monbcast, "staletwo": staletwo, "bigclaim": bigclaim, "dustclose": dustclose, "slots": slots, "asynccross": asynccross, "blockedjump": blockedjump, "feecross": feecross, "opendisc": opendisc, "chainsettle": chainsettle, "crosslimit": crosslimit, "evhold": evhold, "failwin": failwin, "fanin": fanin, "inflight": inflight, "holdcell": holdcell, "stalehold": stalehold}
 
 
 def make(rng, family, count):
